@@ -773,7 +773,7 @@ def rule_inventory(check):
     for (kind, cn), sites in sorted(seen.items()):
         f, n = sites[0]
         if kind == "struct":
-            ok = cn in ALLOWED_CTORS
+            ok = cn in ALLOWED_CTORS or all(_functional_update(g, m) for g, m in sites)
         else:
             ok = cn in ALLOWED_VARIANTS or (kind == "variant" and cn.split("::")[0] in ("Expr", "Callee") and False)
         # passing a matched variant through unchanged (Expr::Lit(literal) re-wrapping an input) is not new structure
@@ -782,6 +782,21 @@ def rule_inventory(check):
             continue
         check.expect(ok, R, "%s/%s/%s" % (R, kind, cn), hir.loc(n), "%s (%d site%s)" % (cn, len(sites), "" if len(sites) == 1 else "s"), "the rewriter constructs %s, which is not part of the documented instrumentation shapes (%s)" % (cn, ", ".join(sorted({T.short(g) for g, _ in sites}))))
     check.floor(R, "distinct constructed node kinds", len(seen), 25)
+
+
+def _functional_update(f, n):
+    """a struct literal of an AST type whose fields - all but at most two - are copied from the same-named
+    fields of one input node of that type: the node is rebuilt, not a new kind of node"""
+    if n.get("k") != "Struct":
+        return False
+    ty = (n["res"].get("path") or "").split("::")[-1]
+    copied, roots = 0, set()
+    for fl in n["fields"]:
+        e = hir.peel_transparent(fl["e"])
+        if e.get("k") == "Field" and e["field"] == fl["name"] and ty in (e.get("base_ty") or ""):
+            copied += 1
+            roots.add(hir.place(e["x"]))
+    return copied >= max(1, len(n["fields"]) - 2) and len(roots) == 1
 
 
 def _rewrap(f, n):
